@@ -24,15 +24,16 @@ import (
 // Black-box through the public builders (Cache, LoadingCache, HybridCache, HybridLoadingCache).
 
 type c10Case struct {
-	Kind     string `json:"kind"` // plain | loading | hybrid | hybridloading
-	MaxSize  int    `json:"maxsize"`
-	Writers  int    `json:"writers"`
-	WOps     int    `json:"wops"` // writes per writer
-	Readers  int    `json:"readers"`
-	Waiters  int    `json:"waiters,omitempty"` // goroutines calling Wait in a loop while the writers run (plain/loading)
-	Stall    bool   `json:"stall"`             // hold maintenance inside a gated removal listener so that the write queue fills up and writers park on it
-	CloseAt  int    `json:"close_at"`          // Close is called once this many writes have been issued (0 = right away)
-	PostWait bool   `json:"post_wait"`         // call Wait after Close (plain/loading)
+	Kind      string `json:"kind"` // plain | loading | hybrid | hybridloading
+	MaxSize   int    `json:"maxsize"`
+	Writers   int    `json:"writers"`
+	WOps      int    `json:"wops"` // writes per writer
+	Readers   int    `json:"readers"`
+	Waiters   int    `json:"waiters,omitempty"`    // goroutines calling Wait in a loop while the writers run (plain/loading)
+	Stall     bool   `json:"stall"`                // hold maintenance inside a gated removal listener so that the write queue fills up and writers park on it
+	CloseAt   int    `json:"close_at"`             // Close is called once this many writes have been issued (0 = right away)
+	PostWait  bool   `json:"post_wait"`            // call Wait after Close (plain/loading)
+	LongStall bool   `json:"long_stall,omitempty"` // with Stall: maintenance stays held for 1.2 s after Close was called, so the 1 s maintenance tick fires while Close is queued on the policy lock
 }
 
 func genC10(t *rapid.T) c10Case {
@@ -54,6 +55,7 @@ func genC10(t *rapid.T) c10Case {
 	total := c.Writers * c.WOps
 	c.CloseAt = rapid.SampledFrom([]int{0, 1, total / 4, total / 2, total}).Draw(t, "closeAt")
 	c.PostWait = rapid.Bool().Draw(t, "postWait")
+	c.LongStall = c.Stall && rapid.IntRange(0, 7).Draw(t, "longStall") == 0
 	return c
 }
 
@@ -198,6 +200,9 @@ func execC10(c c10Case, x *verifkit.Ctx) (fail *verifkit.Failure) {
 	go func() { cl.close(); close(closed) }()
 	// Close needs the policy lock; if maintenance is held in the listener, let it go on now
 	time.Sleep(200 * time.Microsecond)
+	if c.Stall && c.LongStall {
+		time.Sleep(1200 * time.Millisecond)
+	}
 	release()
 	select {
 	case <-closed:
@@ -296,6 +301,7 @@ func execC10(c c10Case, x *verifkit.Ctx) (fail *verifkit.Failure) {
 	over := int(parkedAtClose) > 0 && c.Writers*c.WOps > internal.WriteChanSize+internal.WriteBufferSize
 	x.ClassIf(over, "more-writes-in-flight-than-queue")
 	x.ClassIf(c.Stall, "maintenance-stalled-at-close")
+	x.ClassIf(c.Stall && c.LongStall, "tick-fired-while-close-was-queued")
 	x.ClassIf(c.PostWait && cl.wait != nil, "wait-after-close")
 	if over || c.Kind == "hybrid" || c.Kind == "hybridloading" || (c.PostWait && cl.wait != nil) {
 		x.NonTrivial()
@@ -315,8 +321,9 @@ func TestVerifC10(t *testing.T) {
 			{Kind: "loading", MaxSize: 2, Writers: 2000, WOps: 1, Readers: 0, Stall: true, CloseAt: 1500},
 			{Kind: "hybrid", MaxSize: 16, Writers: 2200, WOps: 1, Readers: 1, Stall: true, CloseAt: 2200},
 			{Kind: "hybridloading", MaxSize: 1000, Writers: 40, WOps: 100, Readers: 4, Stall: false, CloseAt: 1000},
+			{Kind: "plain", MaxSize: 16, Writers: 8, WOps: 50, Readers: 1, Stall: true, LongStall: true, CloseAt: 200, PostWait: true},
 		},
-		Rule: "C10: rapid draws the cache kind (plain, loading, hybrid, hybrid loading - built through the public builders), MaxSize, 1..2500 writer goroutines (classes below and above the write queue's capacity), 0..8 readers, 0..4 goroutines calling Wait in a loop meanwhile, whether maintenance is held inside a gated removal listener when Close lands (so that the queue is full and writers are parked on it), the moment of Close, and the calls made after Close (Set, Delete, Get of stored keys and - hybrid kinds - of a key that lives only in the secondary tier, loading Get, second Close, Wait); non-trivial = more writes in flight than the queue holds at Close, or a hybrid cache, or Wait after Close",
+		Rule: "C10: rapid draws the cache kind (plain, loading, hybrid, hybrid loading - built through the public builders), MaxSize, 1..2500 writer goroutines (classes below and above the write queue's capacity), 0..8 readers, 0..4 goroutines calling Wait in a loop meanwhile, whether maintenance is held inside a gated removal listener when Close lands (so that the queue is full and writers are parked on it; in an eighth of those cases for 1.2 s more, so that the maintenance tick fires while Close is queued on the policy lock), the moment of Close, and the calls made after Close (Set, Delete, Get of stored keys and - hybrid kinds - of a key that lives only in the secondary tier, loading Get, second Close, Wait); non-trivial = more writes in flight than the queue holds at Close, or a hybrid cache, or Wait after Close",
 		Assumptions: []string{
 			"a call that has not returned 5 s after Close returned, while it is parked in a channel send and no background goroutine of that cache exists any more, is reported as blocked for ever (stack classification); real scheduler, failures are not re-executed",
 			"background goroutines are recognised by the frames Store.maintenance / Store.processSecondary in the goroutine profile, counted relative to the start of the case",
